@@ -373,7 +373,8 @@ def naming(kind, n_max=20):
     if kind == "digits":
         return {k: str(k) for k in range(1, n_max + 1)}
     if kind == "letters":
-        return {k: "abcdefghijklmnopqrstuvwxyz"[k - 1] for k in range(1, n_max + 1)}
+        abc = "abcdefghijklmnopqrstuvwxyz"
+        return {k: (abc[k - 1] if k <= 26 else abc[(k - 1) // 26 - 1] + abc[(k - 1) % 26]) for k in range(1, n_max + 1)}
     if kind.startswith("mixed"):
         lk = int(kind[5:])
         return {k: ("z" if k == lk else str(k)) for k in range(1, n_max + 1)}
@@ -381,6 +382,10 @@ def naming(kind, n_max=20):
         return {k: 8 * (k - 1) for k in range(1, n_max + 1)}
     if kind == "big":
         return {k: 100 + k for k in range(1, n_max + 1)}
+    if kind == "zeropad":
+        # digit strings that denote the same number; the letter keeps the dataset str-typed
+        w = ["7", "07", "x", "007", "70", "0070", "y", "8", "08", "z", "9", "09"]
+        return {k: w[(k - 1) % len(w)] + ("" if k <= len(w) else "_" + str(k)) for k in range(1, n_max + 1)}
     if kind == "weird":
         # names containing the characters of the printed form of a ranking: different rankings may PRINT alike
         w = ["a", "b", "a}, {b", "c", "b}, {c", "{a", "a, b", "d", "e", "f", "g", "h"]
@@ -403,11 +408,12 @@ class Absmap:
 
     def __init__(self, kind, D=None, n_max=20):
         self.kind = kind
-        self.names = naming(kind, n_max)
+        used_d = sorted({x for r in D for b in r for x in b}) if D is not None else []
+        self.names = naming(kind, max([n_max] + [x + 8 for x in used_d]))
         if D is None:
             used = list(self.names)
         else:
-            used = sorted({x for r in D for b in r for x in b})
+            used = used_d
         self.is_int = all(_intlike(self.names[x]) for x in used) if used else True
         self.rev = {}
         for k, v in self.names.items():
